@@ -246,10 +246,6 @@ pub fn c08_sweep(cx: &SweepCtx, quick: bool, threads: usize) {
                         if d.requests != 0 {
                             v("allocates", format!("{desc}: {} allocator request(s)", d.requests));
                         }
-                        let want_frees = if method == 2 { n as u64 } else { 0 };
-                        if d.frees != want_frees {
-                            v("frees", format!("{desc}: {} block(s) released, expected {want_frees}", d.frees));
-                        }
                         for c in &copies {
                             let o = observe(c);
                             if o.kind != src_obs.kind || o.text != src_obs.text || (o.kind != Kind::Inline && o.ptr != src_obs.ptr) || (o.kind == Kind::Inline && o.raw != src_obs.raw) {
@@ -414,7 +410,7 @@ pub fn c09_sweep(cx: &SweepCtx, quick: bool, threads: usize) {
                 let d = oracle::delta(c0, shim::with(|s| s.c));
                 let mut buf = [0u8; 4];
                 let want = c.encode_utf8(&mut buf).as_bytes();
-                ctor_verdict(cx, if which == 0 { "From<char>" } else { "to_lean_string(char)" }, want.len(), want, &s, d, true);
+                ctor_verdict(cx, if which == 0 { "From<char>" } else { "to_lean_string(char)" }, want.len(), want, &s, d, false);
             }
         }
     });
@@ -424,7 +420,7 @@ pub fn c09_sweep(cx: &SweepCtx, quick: bool, threads: usize) {
         let s = b.to_lean_string();
         let d = oracle::delta(c0, shim::with(|s| s.c));
         let want = b.to_string();
-        ctor_verdict(cx, "to_lean_string(bool)", want.len(), want.as_bytes(), &s, d, true);
+        ctor_verdict(cx, "to_lean_string(bool)", want.len(), want.as_bytes(), &s, d, false);
     }
     // integers: every digit count of every width, both signs, and the boundaries of the inline limit
     let mut ints: Vec<i128> = vec![0];
@@ -448,7 +444,7 @@ pub fn c09_sweep(cx: &SweepCtx, quick: bool, threads: usize) {
                 let s = v.to_lean_string();
                 let d = oracle::delta(c0, shim::with(|s| s.c));
                 let want = v.to_string();
-                ctor_verdict(cx, concat!("to_lean_string(", stringify!($t), ")"), want.len(), want.as_bytes(), &s, d, true);
+                ctor_verdict(cx, concat!("to_lean_string(", stringify!($t), ")"), want.len(), want.as_bytes(), &s, d, false);
             }
         };
     }
@@ -471,7 +467,7 @@ pub fn c09_sweep(cx: &SweepCtx, quick: bool, threads: usize) {
                 let s = v.to_lean_string();
                 let d = oracle::delta(c0, shim::with(|s| s.c));
                 let want = v.to_string();
-                ctor_verdict(cx, "to_lean_string(u128)", want.len(), want.as_bytes(), &s, d, true);
+                ctor_verdict(cx, "to_lean_string(u128)", want.len(), want.as_bytes(), &s, d, false);
             }
         }
     }
